@@ -137,21 +137,23 @@ impl<'a> BinaryInput for SliceInput<'a> {
     }
 
     fn read_bytes(&mut self, count: usize) -> Result<&[u8]> {
-        if self.pos + count > self.data.len() {
-            Err(Error::InputEndedUnexpectedly)
-        } else {
-            let result = &self.data[self.pos..self.pos + count];
-            self.pos += count;
-            Ok(result)
+        match self.pos.checked_add(count) {
+            Some(end) if end <= self.data.len() => {
+                let result = &self.data[self.pos..end];
+                self.pos = end;
+                Ok(result)
+            }
+            _ => Err(Error::InputEndedUnexpectedly),
         }
     }
 
     fn skip(&mut self, count: usize) -> Result<()> {
-        if self.pos + count > self.data.len() {
-            Err(Error::InputEndedUnexpectedly)
-        } else {
-            self.pos += count;
-            Ok(())
+        match self.pos.checked_add(count) {
+            Some(end) if end <= self.data.len() => {
+                self.pos = end;
+                Ok(())
+            }
+            _ => Err(Error::InputEndedUnexpectedly),
         }
     }
 }
@@ -179,21 +181,23 @@ impl BinaryInput for OwnedInput {
     }
 
     fn read_bytes(&mut self, count: usize) -> Result<&[u8]> {
-        if self.pos + count > self.data.len() {
-            Err(Error::InputEndedUnexpectedly)
-        } else {
-            let result = &self.data[self.pos..self.pos + count];
-            self.pos += count;
-            Ok(result)
+        match self.pos.checked_add(count) {
+            Some(end) if end <= self.data.len() => {
+                let result = &self.data[self.pos..end];
+                self.pos = end;
+                Ok(result)
+            }
+            _ => Err(Error::InputEndedUnexpectedly),
         }
     }
 
     fn skip(&mut self, count: usize) -> Result<()> {
-        if self.pos + count > self.data.len() {
-            Err(Error::InputEndedUnexpectedly)
-        } else {
-            self.pos += count;
-            Ok(())
+        match self.pos.checked_add(count) {
+            Some(end) if end <= self.data.len() => {
+                self.pos = end;
+                Ok(())
+            }
+            _ => Err(Error::InputEndedUnexpectedly),
         }
     }
 }
